@@ -21,7 +21,9 @@ import z3
 
 from .pysym import (SymInt, SymBool, Unsupported, fresh, sym_ite, same, is_sym, explore, Inconclusive,
                     HarnessError)
-from .pysym import explore as _explore_mod
+from .pysym import bool_term
+import importlib
+_explore_mod = importlib.import_module(__package__ + ".pysym.explore")
 from .pysym.interp import Interp, parse_function_source
 
 from amaranth.hdl import Fragment, Signal, Value, Const
@@ -45,6 +47,12 @@ class HSignalState(_RealSignalState):
             HSignalState.record[self] = HSignalState.record.get(self, 0) | mask
         value = (self.next & ~mask) | (value & mask)
         if not same(self.next, value):
+            ex = _explore_mod.CURRENT
+            if ex is not None and is_sym(self.next) and is_sym(value):
+                # structurally different terms may still be equal: decide it (keeps the fixpoint finite)
+                ne = (self.next != value)
+                if ne is False or (ne is not True and not ex.may_hold(bool_term(ne))):
+                    return
             self.next = value
             self.pending.add(self)
 
@@ -337,6 +345,10 @@ class SymSim:
                 w = len(sig)
                 cm = self.comb_mask.get(s, 0)
                 full = (1 << w) - 1
+                if cm:
+                    # bits of a combinationally driven signal that no process drives stay at init
+                    # for ever (a testbench may not write them); only sync-driven bits are state
+                    cm = full & ~(self.sync_mask.get(s, 0) & ~cm)
                 if w == 0 or cm == full:
                     s.curr = s.next = sig.init
                     continue
